@@ -11,7 +11,8 @@ EXPLANATION = (
     'simulation feature): X1 no client-side resend — the transport call and each layer above it (send_parts, send_inner) is issued once '
     'per request: exactly one site, not inside any CFG cycle, so a failed attempt is never re-issued; X2 when a timeout is configured, '
     'every await of the exchange (request, reply body, status body — and any other await send_inner performs on that path, e.g. connection '
-    'readiness) lies inside the future handed to tokio::time::timeout, and expiry maps to Status::timeout. NOT decided: reply/request pairing, exactly-once at the handler, timing.')
+    'readiness) lies inside the future handed to tokio::time::timeout, and expiry maps to Status::timeout. X4 a cloned client handle keeps the configured timeout; X3 the lazily initialised shared connection is initialised atomically (get_or_init) or a lost '
+    'initialisation race is handled, never unwrapped (concurrent first requests). NOT decided: reply/request pairing, exactly-once at the handler, timing.')
 ASSUMPTIONS = ['hyper / h2 do not resend a request on their own for POST over HTTP/2 (retry of idempotent requests only)']
 
 R = 'datacake_rpc::'
@@ -175,8 +176,85 @@ def check_X2(ctx, facts, cfg):
            'expiry is reported as Status::timeout' if mapped else 'expiry of the timeout is not mapped to Status::timeout')
 
 
+def check_X3(ctx, facts, cfg):
+    """lazily initialised shared connection: initialisation is atomic (get_or_init / get_or_try_init), or a check-then-set whose
+    `set` failure is handled — never check, await, set().unwrap(): two concurrent first requests would both pass the check and
+    the loser's unwrap panics (neither an answer nor an error)"""
+    import tables
+    n = 0
+    for body in facts.bodies.values():
+        if body.crate != 'datacake_rpc' or body.d['promoted']:
+            continue
+        calls = list(body.calls())
+        sets = [(b, t) for b, t in calls if cname(t) and re.search(r'once_cell::OnceCell::set$|OnceLock::set$|OnceCell::set$', cname(t))]
+        inits = [(b, t) for b, t in calls if cname(t) and re.search(r'(OnceCell|OnceLock)::(get_or_init|get_or_try_init)$', cname(t))]
+        n += len(sets) + len(inits)
+        if not sets:
+            continue
+        flow = Flow(body)
+        where = body.name.replace(R, '').replace('::{closure#0}', '')
+        for sb, st in sets:
+            fw = flow.forward([st['dest']['l']], stop=[0])
+            unw = [cname(x) for _b, x in calls if cname(x) in tables.MAY_PANIC and x['args'] and op_local(x['args'][0]) in fw]
+            gets = [b for b, t in calls if cname(t) and re.search(r'(OnceCell|OnceLock)::get$', cname(t)) and body.dominates(b, sb)]
+            ys = [i for i, blk in enumerate(body.blocks) if blk['t']['k'] == 'yield' and not blk['cleanup']]
+            awaited_between = any(y in body.reachable_from(gets or [0]) and sb in body.reachable_from([y]) for y in ys)
+            good = not unw
+            ctx.ob('C14.X3', '%s|%s|lazy-init' % (cfg, where), good, site(body, st['cs']),
+                   'a lost initialisation race is handled (the set() result is not unwrapped)' if good else
+                   'the shared connection cell is filled by check%s-then-set().%s: two requests issued concurrently on a channel that has not connected '
+                   'yet both pass the check, and the second set() fails — its unwrap panics the requesting task instead of yielding a reply or an error'
+                   % (' + await' if awaited_between else '', last_seg(unw[0])))
+    if cfg == 'sim':
+        ctx.floor('C14.X3', cfg + ' lazy connection initialisation sites', n, 1)
+
+
+def check_X4(ctx, facts, cfg):
+    """a configured timeout survives cloning the client handle: every field of the clone comes from the same field of the source"""
+    cl = [b for b in facts.bodies.values() if b.crate == 'datacake_rpc' and not b.d['promoted'] and b.impl and 'RpcClient' in b.impl
+          and 'core::clone::Clone' in b.impl and b.name.endswith('::clone')]
+    adt = facts.adts.get(R + 'client::RpcClient')
+    if not cl or not adt:
+        ctx.bad('C14.X4', cfg + '|clone', '', 'Clone for RpcClient not found (fail closed)')
+        return
+    fnames = [f['name'] for f in adt['variants'][0]['fields']]
+    cg = CallGraph(facts)
+    body = cl[0]
+    # the aggregate that builds the clone: in clone itself or in a constructor it delegates to
+    found = None
+    for b in cg.reach([body], bound=2):
+        if b.crate != 'datacake_rpc':
+            continue
+        for _blk, _j, s in b.assigns():
+            rv = s['rv']
+            if rv['k'] == 'aggregate' and rv.get('agg') == 'adt' and strip_generics(rv['adt']) == R + 'client::RpcClient':
+                found = (b, s)
+    if found is None:
+        ctx.bad('C14.X4', cfg + '|clone', site(body), 'cannot see how the clone is built (fail closed)')
+        return
+    b, s = found
+    flow = Flow(b)
+    fl = dict(zip(s['rv']['fields'], s['rv']['ops']))
+    op = fl.get('timeout')
+    src_ok = False
+    l = op_local(op)
+    if l is not None:
+        for _blk, _j, s2 in b.assigns():
+            if s2['lhs']['l'] in flow.backward([l]):
+                for pl in rv_places(s2['rv']):
+                    fs = [e['f'] for e in pl['p'] if isinstance(e, dict) and 'f' in e]
+                    if pl['l'] == 1 and fs and fnames[fs[0]] == 'timeout':
+                        src_ok = True
+    ctx.ob('C14.X4', cfg + '|clone-keeps-timeout', src_ok and b is body or (src_ok and b is not body), site(b, s['cs']),
+           'a cloned client keeps the configured timeout' if src_ok else
+           'a cloned client does not inherit the configured timeout (the clone is built with %s): requests sent through the clone wait for ever on a held link'
+           % ('a constant' if op_const(op) is not None or l is None else 'another value'))
+
+
 def check(ctx):
     for cfg in CONFIGS:
         facts = ctx.facts(cfg)
         check_X1(ctx, facts, cfg)
         check_X2(ctx, facts, cfg)
+        check_X3(ctx, facts, cfg)
+        check_X4(ctx, facts, cfg)
